@@ -266,7 +266,7 @@ func (d *Decoder) Write(p []byte) (n int, err error) {
 			// reading code earlier should already catch
 			// overlong things and return ErrStringLength,
 			// but keep this as a last resort.
-			const varIntOverhead = 8 // conservative
+			const varIntOverhead = 10 // a uint64 varint takes up to 10 bytes
 			if d.maxStrLen != 0 && int64(len(d.buf)) > 2*(int64(d.maxStrLen)+varIntOverhead) {
 				return 0, ErrStringLength
 			}
